@@ -2,6 +2,7 @@ package drivers
 
 import (
 	"fmt"
+	"math/big"
 	"math/rand"
 	"time"
 
@@ -16,6 +17,7 @@ import (
 	"github.com/EscanBE/evermint/v12/app/params"
 	evmtypes "github.com/EscanBE/evermint/v12/x/evm/types"
 	feemarkettypes "github.com/EscanBE/evermint/v12/x/feemarket/types"
+	ethtypes "github.com/ethereum/go-ethereum/core/types"
 
 	"verifharness/chain"
 	"verifharness/trace"
@@ -52,8 +54,18 @@ type GovPlan struct {
 	// read once at the start of a block, so the new limit (and gas target) only counts from the next block on
 	Cons   bool
 	MaxGas int64
-	ID     uint64 // proposal id once submitted
-	State  string // "", "submitted", "voted", "done"
+	// EthMsg: the proposal also carries a MsgEthereumTx (signer field = gov authority, payload = a transaction signed
+	// by a5 that cannot be applied: it moves more than a5 owns). The message service router hands it to x/evm without
+	// any ante handler; it fails, so the proposal fails as a whole - and the block must still end.
+	EthMsg bool
+	// Executed: Ethereum transactions (wrapped bytes) that were executed successfully so far; when there is one at the
+	// time of submission, every second EthMsg proposal carries a byte-identical copy of it instead (its nonce is spent:
+	// the message must fail with "nonce too low" - nothing else stands between a signed transaction and a second execution
+	// on this route, which has no ante handler).
+	Executed [][]byte
+	Replay   bool   // the proposal carries such a copy
+	ID       uint64 // proposal id once submitted
+	State    string // "", "submitted", "voted", "done"
 }
 
 // NewGovPlan draws a plan, or nil.
@@ -74,6 +86,9 @@ func NewGovPlan(r *rand.Rand, blocks int) *GovPlan {
 	if r.Intn(3) == 0 {
 		p.Cons = true
 		p.MaxGas = pick(r, int64(-1), int64(350000), int64(600000), int64(2000000))
+	}
+	if r.Intn(2) == 0 {
+		p.EthMsg = true
 	}
 	if r.Intn(2) == 0 {
 		p.Evm = true
@@ -109,6 +124,19 @@ func (w *World) govTx(p *GovPlan, b int, nextNonce map[string]uint64, baseFee in
 			cp := chain.ConsParams(p.MaxGas)
 			msgs = append(msgs, &consensustypes.MsgUpdateParams{Authority: gov, Block: cp.Block, Evidence: cp.Evidence, Validator: cp.Validator})
 		}
+		if p.EthMsg {
+			a5 := c.Accts[5]
+			to := c.Accts[1].Addr
+			stx := chain.SignEth(a5, &ethtypes.LegacyTx{Nonce: c.Seq(a5.Addr), GasPrice: big.NewInt(baseFee + 50), Gas: 50000, To: &to,
+				Value: big.NewInt(2_000_000_000)}, chain.EIP155)
+			if len(p.Executed) > 0 {
+				if old := ethOf(c, p.Executed[len(p.Executed)-1]); old != nil {
+					stx = old
+					p.Replay = true
+				}
+			}
+			msgs = append(msgs, chain.EthMsg(stx, chain.GovModule))
+		}
 		sub, err := govv1.NewMsgSubmitProposal(msgs, sdk.NewCoins(sdk.NewInt64Coin(chain.Denom, GovDeposit)), a0.Acc().String(), "", "fee market params", "update", false)
 		if err != nil {
 			panic(err)
@@ -127,7 +155,7 @@ func (w *World) govTx(p *GovPlan, b int, nextNonce map[string]uint64, baseFee in
 		panic(err)
 	}
 	nextNonce["a0"] = seq + 1
-	return bz, trace.M{"from": "a0", "seqno": trace.U(seq), "gas": trace.U(gas), "fee": int64(gas) * price, "to": to, "amount": amount, "sigok": true}
+	return bz, trace.M{"from": "a0", "seqno": trace.U(seq), "gas": trace.U(gas), "fee": int64(gas) * price, "to": to, "amount": amount, "sigok": true, "tip": int64(-1)}
 }
 
 // govAfterBlock advances the plan after block b was delivered (code = result code of the plan's transaction in that
@@ -170,11 +198,11 @@ func (w *World) govAfterBlock(p *GovPlan, b int, code int64, data []byte) trace.
 				ec, el = p.EnableCreate, p.EnableCall
 			}
 			return trace.M{"passed": true, "minGP": floorDec(p.MinGP), "baseFee": p.BaseFee, "to": "a0", "refund": GovDeposit,
-				"evm": p.Evm, "enableCreate": ec, "enableCall": el, "cons": p.Cons, "maxGas": p.MaxGas}
+				"evm": p.Evm, "enableCreate": ec, "enableCall": el, "cons": p.Cons, "maxGas": p.MaxGas, "ethMsg": p.ethMsgKind(), "reason": ""}
 		case govv1.StatusRejected, govv1.StatusFailed:
 			p.State = "done"
 			return trace.M{"passed": false, "minGP": int64(0), "baseFee": int64(0), "to": "a0", "refund": GovDeposit,
-				"evm": false, "enableCreate": true, "enableCall": true, "cons": false, "maxGas": int64(0)}
+				"evm": false, "enableCreate": true, "enableCall": true, "cons": false, "maxGas": int64(0), "ethMsg": p.ethMsgKind(), "reason": tailStr(prop.FailedReason, 260)}
 		}
 	}
 	return nil
@@ -183,4 +211,34 @@ func (w *World) govAfterBlock(p *GovPlan, b int, code int64, data []byte) trace.
 // MinGP is the integer part of the minimum gas price configured right now (committed state).
 func (w *World) MinGP() int64 {
 	return w.C.App.FeeMarketKeeper.GetParams(w.C.Ctx()).MinGasPrice.TruncateInt().Int64()
+}
+
+// ethOf extracts the signed Ethereum transaction from wrapped transaction bytes (nil if it is not one).
+func ethOf(c *chain.Chain, bz []byte) *ethtypes.Transaction {
+	tx, err := c.Enc.TxConfig.TxDecoder()(bz)
+	if err != nil || len(tx.GetMsgs()) != 1 {
+		return nil
+	}
+	m, ok := tx.GetMsgs()[0].(*evmtypes.MsgEthereumTx)
+	if !ok {
+		return nil
+	}
+	return m.AsTransaction()
+}
+
+func (p *GovPlan) ethMsgKind() string {
+	switch {
+	case p.Replay:
+		return "executed-before"
+	case p.EthMsg:
+		return "unaffordable"
+	}
+	return "none"
+}
+
+func tailStr(s string, n int) string {
+	if len(s) > n {
+		return "..." + s[len(s)-n:]
+	}
+	return s
 }
